@@ -313,7 +313,11 @@ func oneCase(ctx context.Context, s *hx.Session, p *hx.Prng, w *world, bspec str
 	case !validBlk && !validCow:
 		// the property: error, nothing changed
 		if isGet {
-			if res != "err" {
+			if res != "err" && d1 != d0 {
+				s.Fail("C23/lookup-on-corrupted-block-rewrote-it-from-unverified-backup", "a lookup on a block whose checksum fails, with no usable backup, changed the block or the backup file", d1)
+			} else if res != "err" && res != refShow(blk, target) {
+				s.Fail("C23/lookup-answered-from-unverified-backup", "a lookup on a block whose checksum fails was answered from a backup that fails its own checksum", res)
+			} else if res != "err" {
 				s.Fail(servedSig(c), "a lookup on a block whose checksum fails, with no usable backup, is answered from the unverified bytes instead of failing", res)
 				if res == "none" {
 					s.Hit("served:handle_vanished")
